@@ -337,3 +337,12 @@ Inductive reach_any (cfg : config) : state -> Prop :=
 | reach_any_init : reach_any cfg init
 | reach_any_step st ev st' :
     reach_any cfg st -> step cfg st ev = Some st' -> reach_any cfg st'.
+
+(* "one frame = one Write": the schedule hands every frame to the connection as a single chunk *)
+Definition single_write (ev : event) : Prop :=
+  match ev with ELock _ _ chunks => length chunks = 1%nat | _ => True end.
+
+Inductive reach1 (cfg : config) : state -> Prop :=
+| reach1_init : reach1 cfg init
+| reach1_step st ev st' :
+    reach1 cfg st -> single_write ev -> step cfg st ev = Some st' -> sane cfg st' -> reach1 cfg st'.
